@@ -5,6 +5,10 @@ from .. import gen, contracts
 from . import c02
 
 PROP = "C07"
+LEVEL_TEXT = 'Per-row numpy oracle for cumsum / accumulate / sort / unique / diff, exhaustive small row-length vectors, lazy receivers, and op -> in-place write -> op again on the same object. Exploration.'
+LEVEL_NOTE = "trusts numpy 2.x, CPython (copy.copy, slice semantics, big ints) and the reference model in rtmon/props/c07.py; decides the executions it produces, nothing more"
+TECHNIQUE = 'runtime monitoring: reference-model oracle (numpy per row) + op-write-op stale-state monitor'
+DESIGN_REF = "DESIGN.md sections 0, 5 (C07), 7"
 RULE = ("case = (row lengths, dtype, flat values, operation in cumsum / add|subtract|xor.accumulate / sort / unique[+counts] / diff n, receiver kind); "
         "oracle = numpy on each row; distinct = hash of the case; non-trivial = >= 2 rows and >= 2 cells")
 ASSUMPTIONS = ["cumsum on integer dtypes only (other dtypes are rejected by the library by design)", "unique without NaN",
